@@ -316,6 +316,16 @@ func c17Algebra(c *Ctx) {
 func c17Queries(c *Ctx) {
 	r := c.R
 	bm := genBM64(c)
+	if r.Chance(0.03) {
+		// more than 2^32 elements: one completely full bucket plus whatever was generated (ranks >= 2^32)
+		m := bm.M.Clone()
+		k := []uint64{0, 1, 2, 0x7FFFFFFF}[r.Intn(4)]
+		m.AddRange(k<<32, k<<32|max32)
+		if big, es := build64(r, m, "range"); es == "" {
+			bm = big
+			c.Count("queries_on_more_than_2^32_elements")
+		}
+	}
 	b, m := bm.B, bm.M
 	c.Step("bitmap form=%s set=%v", bm.Form, descSet(m))
 	if !m.IsEmpty() {
